@@ -14,7 +14,15 @@ ASSUMPTIONS = ['C locale (decimal point)', 'hand-written transliteration validat
                'glibc printf/scanf/strtod agree with the reference conversions of LibcPrint.v / LibcNum.v (checked on every number in the run)',
                'python % formatting and float() are correctly rounded (used by the verdict)']
 
-def corpus(ctx): return load_corpus(ctx['verif'], 'C04')
+def corpus(ctx):
+    cs = load_corpus(ctx['verif'], 'C04')
+    for c in cs:
+        a = c.line.split(' ')
+        if a[0] == 'roundtrip':
+            t = tree_of_line(c.line, 2); c.info.update({'tree': t, 'fmt': int(a[1]), 'wf': wf_c04(t)})
+        elif a[0] == 'print':
+            c.info.update({'tree': tree_of_line(c.line, 6), 'fmt': {'P': 1, 'U': 0}.get(a[1], int(a[2])), 'failk': int(a[5])})
+    return cs
 
 def wf_c04(t, depth=0):
     """the precondition of C04: printable, finite numbers, valueint = saturated (int)valuedouble (as the parser and the construction API set it)"""
@@ -38,17 +46,17 @@ def generate(ctx):
                     cases.append(Case('print B %d %d %s %d %s' % (fmt, max(pre, 0), al, failk, line),
                                       {'tags': [tag, 'buffered', al, 'pre=%s' % ('len%+d' % (pre - L) if abs(pre - L) <= 1 else pre)] + (['failk'] if failk else []),
                                        'tree': t, 'fmt': fmt, 'failk': failk}))
-    for i in range(150 if quick else 5000):
+    for i in range(400 if quick else 5000):
         t = rand_tree(rng, depth=rng.choice([1, 2, 3, 4]), wf=True)
         rt(t, 'random-tree', fmts=(0, 1) if i % 2 else (rng.choice([0, 1]),))
         if i % 3 == 0: buffered(t, 'random-tree', allocs=(rng.choice(['hooks', 'realloc']),))
     for i in range(30 if quick else 600):
         rt(rand_tree(rng, depth=rng.choice([1, 2, 3]), wf=False), 'outside-precondition', fmts=(rng.choice([0, 1]),))
-    for d in number_stream(rng, 250 if quick else 4000):
+    for d in number_stream(rng, 500 if quick else 4000):
         n = num_node(rng, d, consistent=(rng.random() < 0.8)); n.ty = T_NUMBER
         rt(PN(T_ARRAY, ch=[n]), 'number', fmts=(0,))
         cases.append(Case('fmtnum %s' % dtok(d), {'tags': ['libc-number']})) if d == d and abs(d) != float('inf') else None
-    for s in STR_BYTES + [rand_bytes(rng, 16) for _ in range(30 if quick else 500)]:
+    for s in STR_BYTES + [rand_bytes(rng, 16) for _ in range(80 if quick else 500)]:
         rt(PN(T_OBJECT, ch=[PN(T_STRING, vs=s, key=s[-5:])]), 'string', fmts=(rng.choice([0, 1]),))
     for t in last_token_trees()[:: (5 if quick else 1)]: rt(t, 'last-token', fmts=(rng.choice([0, 1]),))
     for depth, kind in ((10, 0), (30, T_ARRAY)) + (() if quick else ((200, T_ARRAY), (60, T_OBJECT), (999, T_ARRAY), (1001, T_ARRAY))):
